@@ -447,6 +447,32 @@ def late_reader_worker(job):
     return acc
 
 
+def reading_handler_worker(job):
+    """checks/c19.py's in-band harness with a small stream buffer (window 64), seen from this property: a handler
+    that keeps reading by lines / n units while partial lines are interrupted by signals and size changes gets
+    every byte -- the window is replenished as long as it reads (no accounting drift, no stall)."""
+    import c19
+    cfg, bound = job
+    acc = core.Acc()
+    name = 'reading-handler|%s|pkt=%d|%s' % (cfg['name'], cfg['pkt'], cfg['cname'])
+
+    def check(obs, ch):
+        acc.add(core.digest((name, tuple(ch.choices))), transitions=obs['steps'])
+        if obs['flat'] is None or not obs['done'] or obs['flat'] != obs['sent']:
+            what = 'stalled' if (obs['flat'] is None or not obs['done']) else 'data-differs'
+            acc.violation('reading-handler:%s:%s' % (what, cfg['cname'].split('(')[0]),
+                          'handler read %s of what was sent (%r) ; script=%s calls=%s pkt=%d' % (
+                              'only part' if what == 'stalled' else 'something else', (obs['viol'] or [''])[:1], cfg['name'], cfg['cname'], cfg['pkt']),
+                          {'kind': 'reading-handler', 'name': cfg['name'], 'cname': cfg['cname'], 'pkt': cfg['pkt'], 'choices': ch.choices})
+    core.explore_dfs(lambda ch: c19.inband_run(cfg, ch), bound, check)
+    return acc
+
+
+def reading_handler_jobs(tier):
+    import c19
+    return [j for j in c19.inband_jobs(tier) if j[0].get('win')]
+
+
 def late_reader_jobs(tier):
     sizes = (63, 64, 65, 200, 400) if tier == 'quick' else (1, 32, 63, 64, 65, 96, 128, 129, 200, 400, 1000)
     cases = [(n, k, api) for api in ('wait', 'communicate', 'read-all', 'run-like') for n in sizes for k in range(0, 24 if tier == 'quick' else 40)]
@@ -469,6 +495,7 @@ def main(tier, seed):
     acc.merge(core.pmap(deadlock_worker, core.rotate(deadlock_jobs(tier), seed)))
     n_c = acc.evaluations - n_a - n_b
     acc.merge(core.pmap(late_reader_worker, late_reader_jobs(tier)))
+    acc.merge(core.pmap(reading_handler_worker, reading_handler_jobs(tier), chunksize=2))
     rule = ('(a) sender: for (role, initial window, max packet, write list) every sequence of 5 '
             'WINDOW_ADJUST grants from a menu {pkt, 0, 1, rest, 2^32-1} with <= bound deviations, '
             'refpeer ledger never negative, packets <= max packet, everything delivered once enough is '
@@ -478,7 +505,9 @@ def main(tier, seed):
             'limits incl. low-water 0, two write+drain rounds), every packet-delivery interleaving '
             'within the deviation bound, no deadlock; (d) a process whose output is left unread for k = 0..23 deliveries '
             '(buffer full, channel paused, window closed) before the application reads it through wait / communicate / '
-            'both streams / read-then-wait: everything written arrives')
+            'both streams / read-then-wait: everything written arrives; a handler with a 64-byte stream buffer reading by lines / n units '
+            'while partial lines are interrupted by signals and size changes, every interleaving of deliveries and reader calls '
+            'within the bound: it gets every byte')
     return core.finish(PROP, tier, seed, 'model_checking', acc, t0, rule,
                        {'sender_execs': n_a, 'receiver_execs': n_b, 'deadlock_execs': n_c,
                         'deviation_bound': 2 if tier == 'quick' else 3,
@@ -491,6 +520,14 @@ def replay(rep):
         obs = sender_run(tuple(tuple(x) if isinstance(x, list) and x and not isinstance(x[0], list) else x
                                for x in _tuplify(r['job'])), core.Chooser(r['choices']))
         v = obs['viol']
+    elif r['kind'] == 'reading-handler':
+        import c19
+        v = []
+        for c, _b in c19.inband_jobs('thorough'):
+            if c.get('win') and (c['name'], c['cname'], c['pkt']) == (r['name'], r['cname'], r['pkt']):
+                obs = c19.inband_run(c, core.Chooser(r['choices']))
+                if obs['flat'] is None or not obs['done'] or obs['flat'] != obs['sent']:
+                    v.append(('reading-handler', repr(obs['viol'][:1])))
     elif r['kind'] == 'late-reader':
         import c09
         v = [x for x in c09.late_wait_case(*r['case'])['viol'] if x[0] in ('waiter-hung', 'output-incomplete', 'livelock')]
